@@ -127,6 +127,16 @@ func c47Msgs(r *hx.Rng, o *hx.Out, q int) {
 		o.Emit("c47_msgv1", in, []any{c47Run(vb)}, in[0].(string))
 	}
 
+	// one-defect channels in otherwise valid handshake messages (the ConnectionHops[0] guard)
+	for _, hops := range [][]string{nil, {}, {"connection-0", "connection-1"}, {"connection-0"}, {"c"}} {
+		ch := channeltypes.Channel{State: channeltypes.INIT, Ordering: channeltypes.ORDERED, Counterparty: channeltypes.Counterparty{PortId: "transfer"}, ConnectionHops: hops, Version: "v"}
+		m := channeltypes.MsgChannelOpenInit{PortId: "transfer", Channel: ch, Signer: c47Signer}
+		o.Emit("c47_msgv1", []any{"open_init", hx.HS(m.PortId), c47ChannelJ(m.Channel), true}, []any{c47Run(m.ValidateBasic)}, "open_init/hops-only")
+		ch.State, ch.Counterparty.ChannelId = channeltypes.TRYOPEN, "channel-7"
+		m2 := channeltypes.MsgChannelOpenTry{PortId: "transfer", Channel: ch, ProofInit: []byte{1}, Signer: c47Signer}
+		o.Emit("c47_msgv1", []any{"open_try", hx.HS(m2.PortId), "", c47ChannelJ(m2.Channel), hx.H(m2.ProofInit), true}, []any{c47Run(m2.ValidateBasic)}, "open_try/hops-only")
+	}
+
 	// ---- channel v2
 	uerr := hx.H(channeltypesv2.ErrorAcknowledgement[:])
 	for i := 0; i < 120*q; i++ {
